@@ -24,7 +24,7 @@ ASSUMPTIONS = [
 
 
 def plan(tier: str, seed: int) -> list[dict]:
-    n, per = (16, 32) if tier == "quick" else (64, 160)
+    n, per = (32, 48) if tier == "quick" else (64, 160)
     return [{"seed": seed * 100_000 + i, "n": per, "trunc": 1 if tier == "quick" else 4} for i in range(n)]
 
 
